@@ -13,6 +13,7 @@ import QrlewModel.Model.PupTree
 import QrlewModel.Model.RelTree
 import QrlewModel.Model.TauKeys
 import QrlewModel.Model.ExprImg
+import QrlewModel.Model.DTLat
 import QrlewModel.Model.Tau
 import QrlewModel.Model.Rel
 import QrlewModel.Model.Quote
@@ -540,6 +541,31 @@ def runExprImg (c : Json) : Option Json := do
   pure (Json.mkObj [("image", ivsToJson (ExprImg.image cap (fun i => tys.getD i []) e)),
     ("value", Json.num (JsonNumber.fromInt (ExprImg.eval (fun i => vals.getD i 0) e)))])
 
+/-- DataType lattice on the composite fragment: `Qrlew.DTLat.subset / union / inter` -/
+partial def dtOfJson? (j : Json) : Option DTLat.DT := do
+  let tag ← (j.getArrVal? 0).toOption >>= fun t => t.getStr?.toOption
+  match tag with
+  | "int" => do pure (.int (fromIntervals cap (← (j.getArrVal? 1).toOption >>= jPairs?)))
+  | "opt" => do
+      let inner ← (j.getArrVal? 1).toOption
+      let t ← (inner.getArrVal? 0).toOption >>= fun t => t.getStr?.toOption
+      if t == "int" then pure (.opt (fromIntervals cap (← (inner.getArrVal? 1).toOption >>= jPairs?))) else none
+  | "pair" => do pure (.pair (← (j.getArrVal? 1).toOption >>= dtOfJson?) (← (j.getArrVal? 2).toOption >>= dtOfJson?))
+  | "list" => do pure (.list (← (j.getArrVal? 1).toOption >>= dtOfJson?) (fromIntervals cap (← (j.getArrVal? 2).toOption >>= jPairs?)))
+  | _ => none
+
+partial def dtToJson : DTLat.DT → Json
+  | .int s => Json.arr #[Json.str "int", ivsToJson s]
+  | .opt s => Json.arr #[Json.str "opt", Json.arr #[Json.str "int", ivsToJson s]]
+  | .pair a b => Json.arr #[Json.str "pair", dtToJson a, dtToJson b]
+  | .list t s => Json.arr #[Json.str "list", dtToJson t, ivsToJson s]
+
+def runDtLat (c : Json) : Option Json := do
+  let a ← (c.getObjVal? "a").toOption >>= dtOfJson?
+  let b ← (c.getObjVal? "b").toOption >>= dtOfJson?
+  let render (o : Option DTLat.DT) : Json := match o with | some t => dtToJson t | none => Json.str "outside-fragment"
+  pure (Json.mkObj [("sub", Json.bool (DTLat.subset cap a b)), ("union", render (DTLat.union cap a b)), ("inter", render (DTLat.inter cap a b))])
+
 def runLimit (c : Json) : Option Json := do
   let k ← (c.getObjVal? "k").toOption >>= jInt?
   let nU ← (c.getObjVal? "n_units").toOption >>= jInt?
@@ -725,6 +751,7 @@ def handle (line : String) : Json :=
       | "reltree" => runRelTree c
       | "taukeys" => runTauKeys c ((j.getObjVal? "aux").toOption.getD Json.null)
       | "exprimg" => runExprImg c
+      | "dtlat" => runDtLat c
       | "dpevent" => runDpEvent c
       | "dpquery" => runDpQuery ((j.getObjVal? "aux").toOption.getD Json.null)
       | "rules" => runRules ((j.getObjVal? "aux").toOption.getD Json.null)
